@@ -287,7 +287,7 @@ Definition do_create (s : st) (meta : bytes) : st * outcome :=
             | Some _ => emit s0 (OTrunc FMetaTmp 0)
             | None => emit s0 (OCreate FMetaTmp)
             end in
-  let s2 := match meta with [] => s1 | _ => emit s1 (OWrite false FMetaTmp 0 meta) end in
+  let s2 := emit s1 (OWrite false FMetaTmp 0 meta) in
   let s3 := emit s2 (ORename FMetaTmp FMeta) in
   let s4 := if fexists s3 FIndex then s3 else emit s3 (OCreate FIndex) in
   let s5 := if fexists s4 FCounter then s4 else emit s4 (OCreate FCounter) in
@@ -721,7 +721,9 @@ Definition legal_step (s : st) (o : dop) (s' : st) (oc : outcome) : bool :=
       (* everything before the position the delete persists from is already on disk
          (cesium's control gate keeps deletes off the range of an open writer) *)
       let n := delete_start s a in
-      list_beq ptr ptr_eqb (firstn n (disk_ptrs (s_fs s))) (firstn n (s_ptrs s))
+      list_beq ptr ptr_eqb (firstn n (disk_ptrs (s_fs s))) (firstn n (s_ptrs s)) &&
+      (* the pointers a delete leaves designate bytes inside their files (C04's subject) *)
+      forallb (inrb (s_fs s')) (s_ptrs s')
   | DOpenW w _ _ _ => match assoc (s_ws s) w with None => true | Some _ => false end
   | DReopen => match s_ws s with [] => true | _ => false end
   | _ => true
